@@ -109,10 +109,21 @@ func (db *DB) RenameChannels(ctx context.Context, keys []ChannelKey, names []str
 	if len(keys) != len(names) {
 		return errors.Wrapf(validate.ErrValidation, "keys and names must have the same length")
 	}
+	prevNames := make([]string, 0, len(keys))
 	for i := range keys {
-		if err := db.renameChannel(ctx, keys[i], names[i]); err != nil {
+		prev, err := db.retrieveChannel(ctx, keys[i])
+		if err == nil {
+			err = db.renameChannel(ctx, keys[i], names[i])
+		}
+		if err != nil {
+			// The batch is all or nothing: give the channels renamed so far their
+			// previous names back.
+			for j := len(prevNames) - 1; j >= 0; j-- {
+				err = errors.Combine(err, db.renameChannel(ctx, keys[j], prevNames[j]))
+			}
 			return err
 		}
+		prevNames = append(prevNames, prev.Name)
 	}
 	return nil
 }
